@@ -15,7 +15,7 @@ RULE = ("dimension lists as C02 (0..4 dims, one/two/three-axis, any commons, inf
         "weights none / scalar / array / (values, validity), zeros included; both missing-value policies; dense arrays "
         "handed to xcube as int64 and as the unsigned dtype to_array produces. Dyadic stream (k/8 values): every float64 "
         "operation of the real code is exact, compared EXACTLY with the direct Fraction group-by and with the Lean model; "
-        "wide stream: 1-2 dims whose extent / product of extents straddles 2^8 (thorough: 2^16); general stream (arbitrary doubles): tolerance 1e-9 x grand total, missing cells exactly; every fourth case one long-lived ccube object serves all aggregates while its dimensions are re-normalised in place between them. Non-trivial = >=1 dim and "
+        "wide stream: 1-2 dims whose extent / product of extents straddles 2^8 (thorough: 2^16); general stream (arbitrary doubles): tolerance 1e-9 x grand total, missing cells exactly; cells of exactly 2^16 valid or missing rows (thorough: +-1, 2^17 .. 2^18); every fourth case one long-lived ccube object serves all aggregates while its dimensions are re-normalised in place between them. Non-trivial = >=1 dim and "
         ">=1 row; distinct by (dims, fact, weights, policy, aggregate)")
 ASSUMPTIONS = ["float64 sums/products of the dyadic stream are exact (bounded magnitude, N <= 40)",
                "float rounding on the general stream is within 1e-9 of the grand total"]
@@ -154,6 +154,47 @@ def check(ctx, case, reqs, pend, shape_mode="inferred"):
             pend.append((desc, "xcube", func, gv.reshape(-1).tolist(), gm.reshape(-1).tolist()))
 
 
+def big_cells(ctx):
+    """cells holding exactly 2^16 (2^17, ...) valid or missing rows, and one row more or less: per-cell row counters
+    kept in a narrow integer type wrap to 0 there"""
+    from catii import ccube, xcube
+    counts = [65536] if ctx.scale == 1 else [65535, 65536, 65537, 131072, 196608, 262144]
+    cache = {}
+    for c in counts:
+        for variant in ("valid", "missing"):
+            N = c + 7
+            d = np.zeros(N, dtype=np.int64)
+            d[:c] = 1
+            fv = (np.arange(N) % 5) * 0.5
+            fk = np.ones(N, dtype=bool)
+            if variant == "missing":
+                fk[:c] = False          # category 1: exactly c missing rows ...
+                d[c:c + 2] = 1          # ... and two valid ones
+            for common in (0, 1):
+                for ignore in (False, True):
+                    case = dict(dense=[d], commons=[common], N=N, extents=[2], modes=["big"], fact_vals=fv, fact_valid=fk,
+                                fact_form="pair", weights=None, ignore=ignore, K=None, general=False)
+                    idx = [G.make_index(d, common)]
+                    for func in A.FUNCS:
+                        desc = {"big_cell_rows": c, "variant": variant, "common": common, "ignore_missing": ignore, "func": func}
+                        ctx.case(desc, nontrivial=True)
+                        ctx.hit("big_cells")
+                        try:
+                            cv, cm = A.call(ccube(idx, interacting_shape=(2,)), func, case, ("pair", 0))
+                            xv, xm = A.call(xcube([d], interacting_shape=(2,)), func, case, ("pair", 0))
+                        except Exception as e:
+                            ctx.oracle_fail("%s over a cell of %d rows raised %s: %s" % (func, c, type(e).__name__, str(e)[:80]), desc,
+                                            cls="C03-ccube-raises")
+                            continue
+                        key = (c, variant, ignore, func)
+                        if key not in cache:
+                            cache[key] = A.direct_cells(case, func, [d], (2,), None)
+                        exp = {None: cache[key]}
+                        if not compare(ctx, "ccube.%s (cell of %d %s rows)" % (func, c, variant), cv, cm, exp, (2,), None, 0, desc, "C03-ccube-wrong"):
+                            continue
+                        compare(ctx, "xcube.%s (cell of %d %s rows)" % (func, c, variant), xv, xm, exp, (2,), None, 0, desc, "C03-xcube-wrong")
+
+
 def run(ctx):
     core.load_catii()
     reqs, pend = [], []
@@ -194,6 +235,7 @@ def run(ctx):
         case = A.gen_case(ctx.rng, wide="u16" if (ctx.tier == "thorough" and it % 8 == 7) else "u8")
         ctx.hit("wide_extents")
         check(ctx, case, reqs, pend)
+    big_cells(ctx)
     if ctx.oracle_only:
         return
     for (desc, kind, func, gv, gm), m in zip(pend, ctx.model.run(reqs)):
